@@ -14,6 +14,7 @@ package udp
 //@      && u.Length == (8 + len(f.payload)) % 65536
 //@ pred ethhdr(e *layers.Ethernet, r *scan.Request) = fresh(e) && e.SrcMAC == r.SrcMAC && e.DstMAC == r.DstMAC && e.EthernetType == 2048
 //@ func (*PacketFiller).Fill
+//@   sig f, packet, r
 //@   props C05 C11 C17 C01 C02 C19 C07 C13
 //@   observe rand.Intn, SetNetworkLayerForChecksum, gopacket.SerializeLayers
 //@   entry row cksumerr: [call rand.Intn(65535) as (id0) ; call rand.Intn(28232) as (sp0) ; call SetNetworkLayerForChecksum(bind_ck, bind_n) as (ce)] when ce != nil && ret == ce -> exit
@@ -29,39 +30,47 @@ package udp
 
 // C05: every option sets exactly its own field (frame: nothing else of the filler changes); the payload option stores a private copy
 //@ func WithTTL$1
+//@   sig f
 //@   props C05
 //@   modifies f.ttl
 //@   ensures f.ttl == ttl
 //@ func WithIPTotalLength$1
+//@   sig f
 //@   props C05
 //@   modifies f.length
 //@   ensures f.length == length
 //@ func WithIPProtocol$1
+//@   sig f
 //@   props C05
 //@   modifies f.proto
 //@   ensures f.proto == proto
 //@ func WithIPFlags$1
+//@   sig f
 //@   props C05
 //@   modifies f.flags
 //@   ensures f.flags == flags
 //@ func WithVPNmode$1
+//@   sig f
 //@   props C05
 //@   modifies f.vpnMode
 //@   ensures f.vpnMode == vpnMode
 //@ func WithPayload$1
+//@   sig f
 //@   props C05
 //@   modifies f.payload
 //@   ensures len(f.payload) == len(payload) && fresh(backing(f.payload)) && (forall i int :: 0 <= i && i < len(payload) ==> f.payload[i] == payload[i])
 // constructor: defaults (TTL 64, protocol UDP, don't-fragment, no payload), then the options in order, nothing else
 //@ func NewPacketFiller
+//@   sig opts
 //@   props C05 C01 C02 C11 C17 C19 C07 C13
-//@   observe o
+//@   observe PacketFillerOption
 //@   entry row init:  [] when f.ttl == 64 && f.proto == 17 && f.flags == 2 && f.length == 0 && len(f.payload) == 0 && !f.vpnMode -> loop 0
-//@   loop 0 row apply: [call o(bind_x)] when x == f -> continue
+//@   loop 0 row apply: [call PacketFillerOption(bind_x)] when x == f -> continue
 //@   loop 0 row done:  [] when fresh(ret) && ret == f -> exit
 
 // C06 / C03: replies to UDP probes are ICMP messages: the method uses the ICMP processor (with this scan's name)
 //@ func NewScanMethod
+//@   sig psrc, results, vpnMode
 //@   props C06 C03 C14 C16 C20
 //@   observe icmp.NewPacketProcessor
 //@   entry row build: [call icmp.NewPacketProcessor("udp", results, vpnMode) as (pp)] when ret.PacketSource == psrc && isptr(ret.Processor, icmp.PacketProcessor) && asptr(ret.Processor, icmp.PacketProcessor) == pp
@@ -83,26 +92,32 @@ package udp
 
 // option constructors: each returns its own option closure over exactly its argument (verified here, inlined at call sites)
 //@ func WithIPFlags
+//@   sig flags
 //@   inline
 //@   props C05
 //@   ensures closureof(ret, "WithIPFlags$1") && capt(ret, "flags") == flags
 //@ func WithIPProtocol
+//@   sig proto
 //@   inline
 //@   props C05
 //@   ensures closureof(ret, "WithIPProtocol$1") && capt(ret, "proto") == proto
 //@ func WithIPTotalLength
+//@   sig length
 //@   inline
 //@   props C05
 //@   ensures closureof(ret, "WithIPTotalLength$1") && capt(ret, "length") == length
 //@ func WithPayload
+//@   sig payload
 //@   inline
 //@   props C05
 //@   ensures closureof(ret, "WithPayload$1") && capt(ret, "payload") == payload
 //@ func WithTTL
+//@   sig ttl
 //@   inline
 //@   props C05
 //@   ensures closureof(ret, "WithTTL$1") && capt(ret, "ttl") == ttl
 //@ func WithVPNmode
+//@   sig vpnMode
 //@   inline
 //@   props C05
 //@   ensures closureof(ret, "WithVPNmode$1") && capt(ret, "vpnMode") == vpnMode
